@@ -64,6 +64,17 @@ func freshDecls() []fresh {
 		{name: "method-with-path-from-existing-type", nodes: func() []*doc.Node {
 			return []*doc.Node{doc.N("GET", "/freshopt/{oid}").WithParen().WithKids(doc.N("Path").WithBody("@opt"), doc.N("200", "@opt"))}
 		}, adds: []string{"interactions/http GET /freshopt/{oid}", "tags/@freshopt"}, needs: "@opt"},
+		// a fresh type may INHERIT from what the document declares: an heir of a base, of an heir, and
+		// a fresh type / response that merely refers to an existing type
+		{name: "type-heir-of-base", nodes: func() []*doc.Node {
+			return []*doc.Node{doc.N("TYPE", "@freshheir1").WithBody("{ // {allOf: \"@a\"}\n  \"fh1\": 1\n}")}
+		}, adds: []string{"userTypes/@freshheir1"}, needs: "@a"},
+		{name: "type-heir-of-heir", nodes: func() []*doc.Node {
+			return []*doc.Node{doc.N("TYPE", "@freshheir2").WithBody("{ // {allOf: \"@h\"}\n  \"fh2\": 1\n}")}
+		}, adds: []string{"userTypes/@freshheir2"}, needs: "@h"},
+		{name: "type-referring-to-heir", nodes: func() []*doc.Node {
+			return []*doc.Node{doc.N("TYPE", "@freshref").WithBody("{\n  \"r\": @h\n}")}
+		}, adds: []string{"userTypes/@freshref"}, needs: "@h"},
 		{"url", func() []*doc.Node {
 			return []*doc.Node{doc.N("URL", "/freshurl").WithParen().WithKids(doc.N("POST").WithKids(doc.N("Request", "any"), doc.N("201", "empty")))}
 		}, []string{"interactions/http POST /freshurl", "tags/@freshurl"}, ""},
